@@ -564,3 +564,40 @@ def compare(code, spec, code_leaves=None, spec_leaves=None, known=()):
     if extra:
         return "unknown", "the code uses %s, which the specification of this formula does not mention" % sorted(extra)
     return "different", "code: %s   expected: %s" % (code.canon(), spec.canon())
+
+
+def inline_calls(expr, resolve, depth=0):
+    """Replace calls to small helpers (resolve(call) -> FunctionDef or None) whose body is straight-line code ending in one unconditional
+    return by that return expression with the arguments substituted. Used so that a formula moved into a helper is still read."""
+    import copy
+
+    if depth > 3:
+        return expr
+
+    class T(ast.NodeTransformer):
+        def visit_Call(self, n):
+            n = self.generic_visit(n)
+            fn = resolve(n)
+            if fn is None:
+                return n
+            rs = return_exprs(fn)
+            if len(rs) != 1 or rs[0][0] or rs[0][1] is None:
+                return n
+            params = [a.arg for a in fn.args.args]
+            if params and params[0] in ("self", "cls"):
+                params = params[1:]
+            if fn.args.vararg or fn.args.kwarg or any(k.arg is None for k in n.keywords):
+                return n
+            bound = dict(zip(params, n.args))
+            for k in n.keywords:
+                bound[k.arg] = k.value
+            defaults = fn.args.defaults
+            for p_, d in zip(params[len(params) - len(defaults):], defaults):
+                bound.setdefault(p_, d)
+            if set(params) - set(bound):
+                return n
+            body = subst(rs[0][1], rs[0][2])
+            body = inline_calls(body, resolve, depth + 1)
+            return subst(body, bound)
+
+    return T().visit(copy.deepcopy(expr))
